@@ -228,11 +228,16 @@ fn one(line: &str) -> String {
     unsafe { VP_TARGET_PTR = target; }
     let mut inj = InjectorPP::new();
     let mut fake_addr = vp_fake as usize as u64;
-    if mode == "far" || mode == "odd" || mode.starts_with("farat") {
+    if mode == "far" || mode == "odd" || mode.starts_with("farat") || mode.starts_with("farband") {
         // a thunk more than 2 GiB away from the trampoline: movabs rax, vp_fake ; jmp rax
         // ("odd": the thunk starts at an ODD address, right after a one-byte `ret` of a preceding routine: packed, hand-placed code)
         // ("farat<hex>": the thunk lives at a chosen address, e.g. below 2 GiB or in [2 GiB, 4 GiB): a non-PIE executable, MAP_32BIT memory, a JIT arena)
-        let base = if mode == "odd" { 0x300000100000u64 } else if let Some(h) = mode.strip_prefix("farat") { u64::from_str_radix(h, 16).unwrap() } else { 0x300000000000u64 };
+        // ("farband<+|-><hex>": the thunk lies <hex> bytes short of 2 GiB above / below the FUNCTION: within rel32 reach of the function itself, but
+        // possibly not of a trampoline that sits up to 128 MiB away from it on the other side)
+        let base = if let Some(h) = mode.strip_prefix("farband") {
+            let d = u64::from_str_radix(&h[1..], 16).unwrap();
+            if h.starts_with('+') { (target + 0x8000_0000 - d) & !0xfff } else { (target - 0x8000_0000 + d) & !0xfff }
+        } else if mode == "odd" { 0x300000100000u64 } else if let Some(h) = mode.strip_prefix("farat") { u64::from_str_radix(h, 16).unwrap() } else { 0x300000000000u64 };
         let Some(a) = arena::Arena::at(base, 1) else { return format!("{id} SKIPPED mode={mode} the address is occupied in this process\n") };
         let base = if mode == "odd" { unsafe { *(base as *mut u8) = 0xC3; } base + 1 } else { base };
         unsafe {
